@@ -338,9 +338,12 @@ async fn finalize_artifact(
     stored_bytes: u64,
     bytes_total: u64,
 ) -> Option<StreamArtifactRef> {
-    let (Some(_file), Some(tmp_path), Some(hasher)) = (file, tmp_path, hasher) else {
+    let (Some(mut file), Some(tmp_path), Some(hasher)) = (file, tmp_path, hasher) else {
         return None;
     };
+    // the last `write_all` may still be in flight on the blocking pool
+    let _ = file.flush().await;
+    drop(file);
 
     let digest = hasher.finalize();
     let id = hex::encode(digest);
